@@ -8,3 +8,18 @@ ENTRY = {
     "monitor_sigs": ['qbft:decide_', 'qbft:sanity_panic'],
     "assumptions": ["as C02"],
 }
+
+# wrapper level (core/consensus/qbft outside handle): one qbft.Run per duty, decided value = value of the decided hash,
+# subscribers once per decision (Props/C03Wrap.lean, stream conswrap)
+from vlib import snippet_C03wrap as _w
+ENTRY["streams"].append(_w.STREAM)
+ENTRY.setdefault("lean_props_extra", []).append(_w.EXTRA_LEAN)
+ENTRY["monitor_sigs"] = ENTRY["monitor_sigs"] + _w.MONITOR_SIG_PREFIXES
+ENTRY["trusted_base"] = ENTRY["trusted_base"] + _w.TRUSTED_BASE
+ENTRY["assumptions"] = ENTRY["assumptions"] + _w.ASSUMPTIONS
+ENTRY["level_note"] = ("Trusted base as C02. The wrapper level of core/consensus/qbft (Propose / Participate / runInstance / instance.IO / "
+    "deleteInstanceIO / the Decide callback of newDefinition) is modelled in Model/ConsWrap.lean with qbft.Run as environment; "
+    "Props/C03Wrap.lean proves over every history: one_run_per_duty (also after deletion and re-creation of the IO), "
+    "run_started_at_first_call, propose_twice_rejected, decided_value_is_hashed_value, subscribers_once_per_decision, "
+    "no_run_after_expiry; tied by stream conswrap (real Consensus component as a one-member cluster with the real qbft.Run, "
+    "racing Propose/Participate/handle calls behind a barrier, outcome accepted iff some linearisation of the model reproduces it).")
